@@ -57,17 +57,7 @@ type cacheEvent struct {
 	Post  cacheSnap `json:"post"`
 }
 
-// tokenOf abstracts a byte string to [id, len]; id is the first byte if the string is uniform, "?" otherwise.
-func tokenOf(s string) vtok {
-	if len(s) == 0 {
-		return vtok{"", 0}
-	}
-	id := s[:1]
-	if strings.Count(s, id) != len(s) {
-		id = "?"
-	}
-	return vtok{id, len(s)}
-}
+func tokenOf(s string) vtok { return tok(s) }
 
 var valCache = map[string]string{}
 
